@@ -481,7 +481,11 @@ def judge(pid, seed, tier):
                   # unsigned integers (count data; polars count columns are UInt32): differences must not wrap around
                   (np.array([3, 1, 2, 6], dtype=np.uint8), np.array([1, 2, 2, 4], dtype=np.uint8)),
                   (np.array([3, 1, 2, 6], dtype=np.uint32), np.array([1.5, 2.0, 2.5, 7.0])),
-                  (np.array([3.0, 1.0, 2.5, 6.0]), np.array([1, 2, 2, 4], dtype=np.uint16))]
+                  (np.array([3.0, 1.0, 2.5, 6.0]), np.array([1, 2, 2, 4], dtype=np.uint16)),
+                  # signed integers narrower than 64 bit with values whose squared differences do not fit
+                  (np.array([100000, 5, 70000, 3], dtype=np.int32), np.array([1, 7, 3, 60000], dtype=np.int32)),
+                  (np.array([100, 5, 90, 3], dtype=np.int8), np.array([1, 7, 3, 120], dtype=np.int8)),
+                  (np.array([30000, 5, 200, 3], dtype=np.int16), np.array([1.5, 7.0, 3.25, 150.0]))]
         if pid == "C08":
             fns = [(f"identification_function[{f}]", (lambda y, z, f=f: identification_function(y, z, functional=f, level=0.3))) for f in ("mean", "median", "expectile", "quantile")]
         elif pid == "C15":
